@@ -1060,8 +1060,14 @@ class PolyhedralTermList(TermList):  # noqa: WPS338
             # 3 : Problem appears to be unbounded.
             # 4 : Numerical difficulties encountered.
             res = linprog(c=objective, A_ub=a_opt, b_ub=b_opt, bounds=(None, None))  # ,options={'tol':0.000001})
+            if res["status"] not in {0, 2}:
+                # The objective is bounded by the relaxed row itself, so "unbounded" can only be an
+                # artefact of the solver's presolve on badly scaled rows: solve again without it.
+                res = linprog(
+                    c=objective, A_ub=a_opt, b_ub=b_opt, bounds=(None, None), options={"presolve": False}
+                )
             b_temp[i] -= 1
-            if res["status"] == 3 or (res["status"] == 0 and -res["fun"] <= b_temp[i]):  # noqa: WPS309
+            if res["status"] == 0 and -res["fun"] <= b_temp[i]:  # noqa: WPS309
                 logging.debug("Can remove")
                 a_temp = np.delete(a_temp, i, 0)
                 b_temp = np.delete(b_temp, i)
